@@ -1,8 +1,8 @@
 (** Eng/Cand.v – candidates, segment tags, byte-string helpers.  Model only.
 
     Ported from src/rime/candidate.h (the fields a session can observe:
-    start, end, text, comment, preedit).  Candidate type/quality are not
-    modelled: with a single translator and no filter they are unobservable. *)
+    start, end, text, comment, preedit, type).  Candidate quality is not
+    modelled: every modelled translator yields SimpleCandidates (quality 0). *)
 From Coq Require Import List Arith NArith Bool.
 From Coq.Strings Require Import Byte.
 From RimeV Require Import Base.Bytes.
@@ -40,12 +40,14 @@ Definition substr_se (s : bytes) (pos en : nat) : bytes * bool :=
   else (skipn pos s, true).
 
 (** segment tags: std::set<string> over the names the modelled code uses *)
-Inductive tag := TAbc | TRaw | TPartial | TPaging | TPhony | TPlaceholder | TSelectedBeforeEditing.
+Inductive tag := TAbc | TRaw | TPartial | TPaging | TPhony | TPlaceholder | TSelectedBeforeEditing
+                 | TPunct | TPunctNumber.
 
 Definition tag_eqb (a b : tag) : bool :=
   match a, b with
   | TAbc, TAbc | TRaw, TRaw | TPartial, TPartial | TPaging, TPaging | TPhony, TPhony
-  | TPlaceholder, TPlaceholder | TSelectedBeforeEditing, TSelectedBeforeEditing => true
+  | TPlaceholder, TPlaceholder | TSelectedBeforeEditing, TSelectedBeforeEditing
+  | TPunct, TPunct | TPunctNumber, TPunctNumber => true
   | _, _ => false
   end.
 
@@ -60,7 +62,8 @@ Record cand := mkCand {
   c_end : nat;
   c_text : bytes;
   c_comment : bytes;
-  c_preedit : bytes
+  c_preedit : bytes;
+  c_type : bytes            (* Candidate::type(): "punct" for punct_translator's candidates *)
 }.
 
 (** what a translator is told about the segment it translates *)
@@ -68,6 +71,11 @@ Record seginfo := mkSegInfo {
   si_start : nat; si_end : nat; si_tags : tags;
   si_opts : list (bytes * bool)   (* the context's options at Query time (a translator may read them) *)
 }.
+
+(** candidate / commit-record type names *)
+Definition ty_punct : bytes := [x70;x75;x6e;x63;x74].   (* "punct" *)
+Definition ty_raw : bytes := [x72;x61;x77].             (* "raw" *)
+Definition ty_thru : bytes := [x74;x68;x72;x75].        (* "thru" *)
 
 (** byte constants *)
 Definition byte_tab : byte := x09.
